@@ -8,8 +8,15 @@ def sh(cmd, cwd=None):
     p = subprocess.run(cmd, shell=True, cwd=cwd, capture_output=True, text=True)
     return p.returncode, (p.stdout + p.stderr)
 TESTS = "/venv/bin/python -m pytest -q -p no:cacheprovider --timeout=900 --continue-on-collection-errors ciderpress/dft/tests/test_feat_normalizer.py ciderpress/dft/tests/test_transform_data.py ciderpress/models/tests/test_kernels.py"
-sh("git checkout -- .", wt)
-rc, out = sh("git apply %s/patch.diff" % src, wt); assert rc == 0, out
+# bring the scratch worktree to /repo's current HEAD and re-base the sub-agent's patch onto it (3-way), so that what is
+# confirmed, stored and checked is the change against the tree as it is now
+sh("git reset -q --hard", wt)
+head = sh("git rev-parse HEAD", "/repo")[1].strip()
+sh("git checkout -q --detach %s" % head, wt)
+rc, out = sh("git apply -3 %s/patch.diff" % src, wt); assert rc == 0, out
+sh("git reset -q", wt)
+rc, out = sh("git diff HEAD", wt)
+open(os.path.join(src, "patch.diff"), "w").write(out)
 rc_t, out_t = sh(TESTS, wt)
 tests_line = [l for l in out_t.splitlines() if "passed" in l or "failed" in l][-1:]
 rc_d1, out_d1 = sh("/venv/bin/python %s/demo.py" % src, wt)
